@@ -40,7 +40,10 @@ def case(draw, tier):
         if lists:
             i = draw(st.sampled_from(lists))
             variant = {"kind": "wrong-type", "loop": i, "pos": draw(st.integers(0, len(script.items[i].header.vals))),
-                       "alt": draw(st.integers(0, 3))}
+                       "alt": draw(st.integers(0, 5))}
+    if k == 2:
+        variant = {"kind": "range-of-wrong-type", "loop": draw(st.sampled_from(loops)), "vtype": draw(st.sampled_from(["str", "bool", "str"])),
+                   "b": draw(st.integers(3, 6)), "step": draw(st.sampled_from([None, None, 1, 2]))}
     return {"script": script, "layout": draw(K.layout_light()), "variant": variant}
 
 
@@ -100,6 +103,12 @@ def envs_before_items(script):
 def negative(script, v):
     items = list(script.items)
     loop = items[v["loop"]]
+    if v["kind"] == "range-of-wrong-type":
+        # for str s in 0:3 / for bool b in 0:3 -- the numbers 0, 1, 2 are not strings, 2 is not a boolean
+        step = None if v["step"] is None or v["vtype"] == "bool" else str(v["step"])
+        body = [A.Stmt("Body", A.Args([S.F1(A.Var("rv9"))], [], False), [S.F1(A.Num("int", "0"))])]
+        items[v["loop"]] = A.For(v["vtype"], "rv9", A.Range("0", str(v["b"]), step), body)
+        return A.Script(script.name, script.version, script.target, script.ptype, [], items), None
     if v["kind"] == "var-after-loop":
         ref = S.F1(A.Var(loop.var))
         zero = S.F1(A.Num("int", "0"))
@@ -113,10 +122,13 @@ def negative(script, v):
             st_ = A.Stmt("After", A.Args([A.Flat([A.Operand("", A.Num("int", "2")), A.Operand("", A.Var(loop.var))], ["*"])], [], False), [zero])
         items.insert(v["loop"] + 1, st_)
         return A.Script(script.name, script.version, script.target, script.ptype, [], items), loop.var
-    wrong = {"int": [S.F1(A.Num("float", "1.5")), A.Str("a"), S.F1(A.Num("float", "2.5")), S.F1(A.Num("complex", "1j"))],
-             "float": [A.Str("x"), A.Str("1.5"), S.F1(A.Num("complex", "2j")), A.Str("")],
-             "bool": [S.F1(A.Num("int", "2")), S.F1(A.Num("float", "0.5")), A.Str("True"), S.F1(A.Num("int", "7"))],
-             "str": [S.F1(A.Num("int", "1")), S.F1(A.Num("float", "2.5")), A.Bool(True), S.F1(A.Num("int", "0"))]}[loop.vtype][v["alt"]]
+    wrong = {"int": [S.F1(A.Num("float", "1.5")), A.Str("a"), S.F1(A.Num("float", "2.00001")), S.F1(A.Num("complex", "1j")),
+                     S.F1(A.Num("float", "1e-9")), S.F1(A.Num("float", "0.9999999999"))],
+             "float": [A.Str("x"), A.Str("1.5"), S.F1(A.Num("complex", "2j")), A.Str(""), A.Str("inf"), S.F1(A.Num("complex", "1+1e-12j"))],
+             "bool": [S.F1(A.Num("int", "2")), S.F1(A.Num("float", "0.5")), A.Str("True"), S.F1(A.Num("int", "7")),
+                      S.F1(A.Num("float", "1e-9")), S.F1(A.Num("float", "0.99999999999"))],
+             "str": [S.F1(A.Num("int", "1")), S.F1(A.Num("float", "2.5")), A.Bool(True), S.F1(A.Num("int", "0")), A.Bool(False), S.F1(A.Num("complex", "1j"))]
+             }[loop.vtype][v["alt"] % 6]
     vals = list(loop.header.vals)
     vals.insert(v["pos"], wrong)
     items[v["loop"]] = A.For(loop.vtype, loop.var, A.ForList(vals, loop.header.lbr, loop.header.rbr), loop.body)
